@@ -696,8 +696,9 @@ def gen_c19(repo="/repo"):
     for k in par:
         if k not in KNOWN and k not in OUT_OF_SCOPE:
             errors.append(f"{k}: compiled parallel=True but this check has no footprint proof for it")
-    out.append("(* kernels compiled with parallel=True, as found in kernels.py (sorted) *)")
-    out.append("Definition parallel_kernels : list string := [" + "; ".join(f'"{k}"' for k in par) + "].")
+    out.append("(* kernels compiled with parallel=True, as found in kernels.py (sorted); the ones C19 does not enumerate are listed apart *)")
+    out.append("Definition parallel_kernels : list string := [" + "; ".join(f'"{k}"' for k in par if k not in OUT_OF_SCOPE) + "].")
+    out.append("Definition parallel_kernels_out_of_scope : list string := [" + "; ".join(f'"{k}"' for k in par if k in OUT_OF_SCOPE) + "].")
     out.append("(* record layout of moments_dtype: field number = position *)")
     out.append("Definition moments_fields : list string := [" + "; ".join(f'"{f}"' for f in fields) + "].")
     out.append("")
